@@ -45,25 +45,34 @@ const (
 
 // Rec is one record printed by PySeqGen.
 type Rec struct {
-	Op    string  `json:"op"`
-	Kind  string  `json:"kind"`
-	T     string  `json:"t"`
-	X     []int64 `json:"x"`
-	R     []int64 `json:"r"`
-	A     *int64  `json:"a,omitempty"`
-	B     *int64  `json:"b,omitempty"`
-	St    *int64  `json:"st,omitempty"`
-	I     *int64  `json:"i,omitempty"`
-	Item  *int64  `json:"item,omitempty"`
-	Yt    string  `json:"yt,omitempty"`
-	Y     []int64 `json:"y,omitempty"`
-	Yr    []int64 `json:"yr,omitempty"`
-	Cnt   *int64  `json:"cnt,omitempty"`
-	Rev   bool    `json:"rev,omitempty"`
-	Vt    string  `json:"vt,omitempty"`
-	V     []int64 `json:"v,omitempty"`
-	Cmp   string  `json:"cmp,omitempty"`
-	Et    string  `json:"et,omitempty"`
+	Op   string  `json:"op"`
+	Kind string  `json:"kind"`
+	T    string  `json:"t"`
+	X    []int64 `json:"x"`
+	R    []int64 `json:"r"`
+	A    *int64  `json:"a,omitempty"`
+	B    *int64  `json:"b,omitempty"`
+	St   *int64  `json:"st,omitempty"`
+	I    *int64  `json:"i,omitempty"`
+	Item *int64  `json:"item,omitempty"`
+	Yt   string  `json:"yt,omitempty"`
+	Y    []int64 `json:"y,omitempty"`
+	Yr   []int64 `json:"yr,omitempty"`
+	Cnt  *int64  `json:"cnt,omitempty"`
+	Rev  bool    `json:"rev,omitempty"`
+	Vt   string  `json:"vt,omitempty"`
+	V    []int64 `json:"v,omitempty"`
+	Cmp  string  `json:"cmp,omitempty"`
+	Et   string  `json:"et,omitempty"`
+	// derive-operate-reread cases: y = Derive(x); z = y OP e1; z2 = y OP e2; then everything is read again
+	D     string  `json:"d,omitempty"`
+	Dt    string  `json:"dt,omitempty"`
+	Then  string  `json:"then,omitempty"`
+	E1    []int64 `json:"e1,omitempty"`
+	E2    []int64 `json:"e2,omitempty"`
+	Yv    []int64 `json:"yv,omitempty"`
+	Z     []int64 `json:"z,omitempty"`
+	Z2    []int64 `json:"z2,omitempty"`
 	Cls   string  `json:"cls"`
 	Out   string  `json:"out"`
 	Alt   string  `json:"alt,omitempty"` // a second allowed exception class ("" = none)
@@ -337,6 +346,9 @@ type obs struct {
 	Ypost   *value `json:"ypost,omitempty"`
 	Aliased string `json:"aliased,omitempty"`
 	Note    string `json:"note,omitempty"`
+	// derive cases: y right after it was made, z right after it was made (API path), then x, y, z, z2 at the end
+	Y0, Z0         *value
+	XE, YE, ZE, Z2 *value
 }
 
 // verdict returns "" if the observation is what the record allows, else the kind of divergence.
@@ -358,6 +370,9 @@ func verdict(rec *Rec, o *obs) string {
 		if !o.excIsA(rec.Out) && !(rec.Alt != "" && o.excIsA(rec.Alt)) {
 			return strings.TrimPrefix(o.Outcome, "exc:")
 		}
+	}
+	if rec.Op == "Derive" {
+		return verdictDerive(rec, o)
 	}
 	if rec.Out == "ok" && rec.Rk != "none" {
 		if o.Res == nil {
@@ -387,6 +402,41 @@ func verdict(rec *Rec, o *obs) string {
 	}
 	if o.Aliased != "" {
 		return "aliased"
+	}
+	return ""
+}
+
+func sameVal(v *value, want []int64) bool {
+	return v != nil && v.Bad == "" && eqInts(v.Val, want)
+}
+
+// verdictDerive: the derived object and both results are what the record says, and nothing that was made
+// earlier changed when something was made later
+func verdictDerive(rec *Rec, o *obs) string {
+	if !o.TypeOK {
+		return "wrong-type"
+	}
+	if o.Y0 != nil && !sameVal(o.Y0, rec.Yv) {
+		return "wrong-value"
+	}
+	if o.Z0 != nil && !sameVal(o.Z0, rec.Z) {
+		return "wrong-value"
+	}
+	if !sameVal(o.XE, rec.Post) || !sameVal(o.YE, rec.Yv) {
+		// the sequence the derived object was made from, or the derived object, changed under a later operation
+		if o.Y0 == nil && o.YE != nil && !eqInts(o.YE.Val, rec.Yv) && sameVal(o.XE, rec.Post) && sameVal(o.ZE, rec.Z) && sameVal(o.Z2, rec.Z2) {
+			return "wrong-value" // source path: y is read once, at the end; nothing else is off, so it was made wrong
+		}
+		return "operand-changed"
+	}
+	if !sameVal(o.Z2, rec.Z2) {
+		return "wrong-value"
+	}
+	if !sameVal(o.ZE, rec.Z) {
+		if o.Z0 != nil {
+			return "result-changed" // it was right when it was made
+		}
+		return "wrong-value/result-changed"
 	}
 	return ""
 }
@@ -557,7 +607,89 @@ func doAPI(rec *Rec, v variant, form string, x, y py.Object) (py.Object, error) 
 
 func isStop(err error) bool { return py.IsException(py.StopIteration, err) }
 
+func deriveAPI(rec *Rec, x py.Object) (py.Object, error) {
+	switch rec.D {
+	case "slice":
+		return py.GetItem(x, py.NewSlice(py.Int(*rec.A), py.Int(*rec.B), py.None))
+	case "addempty":
+		e, err := mkObj(rec.T, nil, nil)
+		if err != nil {
+			return nil, err
+		}
+		return py.Add(x, e)
+	case "mul1":
+		return py.Mul(x, py.Int(1))
+	case "tuple":
+		return py.Call(py.TupleType, py.Tuple{x}, nil)
+	case "list":
+		return py.Call(py.ListType, py.Tuple{x}, nil)
+	}
+	return nil, fmt.Errorf("verif: unknown derivation %s", rec.D)
+}
+
+func thenAPI(rec *Rec, y py.Object, extra []int64) (py.Object, error) {
+	switch rec.Then {
+	case "concat", "iadd":
+		e, err := mkObj(rec.Dt, extra, nil)
+		if err != nil {
+			return nil, err
+		}
+		if rec.Then == "iadd" {
+			return py.IAdd(y, e)
+		}
+		return py.Add(y, e)
+	case "repeat":
+		return py.Mul(y, py.Int(2))
+	case "slice":
+		return py.GetItem(y, py.NewSlice(py.Int(0), py.Int(1), py.None))
+	}
+	return nil, fmt.Errorf("verif: unknown operation %s", rec.Then)
+}
+
+func kindOK(v value, want string) bool {
+	return v.Kind == want && (v.Et == "int" || v.Et == "" || want == "str" || want == "bytes" || want == "range")
+}
+
+func runDeriveAPI(rec *Rec) *obs {
+	o := &obs{excIsA: func(string) bool { return false }}
+	x, err := mkObj(rec.T, rec.X, rec.R)
+	if err != nil {
+		o.Outcome = "exc:scaffold"
+		return o
+	}
+	var y, z, z2 py.Object
+	res := pyrun.Guard(apiTimeout, func() error {
+		var err error
+		if y, err = deriveAPI(rec, x); err != nil {
+			return err
+		}
+		y0 := norm(y)
+		o.Y0 = &y0
+		if z, err = thenAPI(rec, y, rec.E1); err != nil {
+			return err
+		}
+		z0 := norm(z)
+		o.Z0 = &z0
+		z2, err = thenAPI(rec, y, rec.E2)
+		return err
+	})
+	o.Outcome = res.Outcome()
+	o.Site = res.PanicSite
+	o.excIsA = res.IsA
+	if o.Outcome != "ok" {
+		return o
+	}
+	xe, ye, ze, z2e := norm(x), norm(y), norm(z), norm(z2)
+	o.XE, o.YE, o.ZE, o.Z2 = &xe, &ye, &ze, &z2e
+	o.Post = &xe
+	o.TypeOK = kindOK(ye, rec.Dt) && kindOK(ze, rec.Dt) && kindOK(z2e, rec.Dt)
+	return o
+}
+
 func runAPI(rec *Rec, v variant, form string) *obs {
+	if rec.Op == "Derive" {
+		return runDeriveAPI(rec)
+	}
 	o := &obs{}
 	x, err := mkObj(rec.T, rec.X, rec.R)
 	if err != nil {
@@ -721,7 +853,58 @@ type srcCase struct {
 }
 
 // render writes one case as a Python function; every line it prints starts with the case number
+func renderDerive(idx int, rec *Rec) string {
+	var b strings.Builder
+	w := func(f string, a ...interface{}) { fmt.Fprintf(&b, f, a...) }
+	w("def c%d():\n    x = %s\n", idx, lit(rec.T, rec.X, rec.R))
+	if rec.Then == "concat" || rec.Then == "iadd" {
+		w("    e1 = %s\n    e2 = %s\n", lit(rec.Dt, rec.E1, nil), lit(rec.Dt, rec.E2, nil))
+	}
+	w("    try:\n")
+	switch rec.D {
+	case "slice":
+		w("        y = x[%d:%d]\n", *rec.A, *rec.B)
+	case "addempty":
+		w("        y = x + %s\n", lit(rec.T, nil, nil))
+	case "mul1":
+		w("        y = x * 1\n")
+	case "tuple":
+		w("        y = tuple(x)\n")
+	case "list":
+		w("        y = list(x)\n")
+	}
+	for i, z := range []string{"z", "z2"} {
+		e := []string{"e1", "e2"}[i]
+		switch rec.Then {
+		case "concat":
+			w("        %s = y + %s\n", z, e)
+		case "iadd":
+			w("        %s = y\n        %s += %s\n", z, z, e)
+		case "repeat":
+			w("        %s = y * 2\n", z)
+		case "slice":
+			w("        %s = y[0:1]\n", z)
+		}
+	}
+	rd := func(n string) string {
+		if rec.Dt == "range" {
+			return "[e for e in " + n + "]"
+		}
+		return ints(n, rec.Dt)
+	}
+	w("        print(%d, 'ok', isinstance(y, %s) and isinstance(z, %s) and isinstance(z2, %s), [])\n", idx, rec.Dt, rec.Dt, rec.Dt)
+	w("        print(%d, 'vals', [%s, %s, %s, %s])\n", idx, ints("x", rec.T), rd("y"), rd("z"), rd("z2"))
+	for _, e := range []string{"IndexError", "ValueError", "TypeError", "OverflowError", "AttributeError", "KeyError", "StopIteration", "Exception"} {
+		w("    except %s:\n        print(%d, 'exc', '%s')\n", e, idx, e)
+	}
+	w("c%d()\n", idx)
+	return b.String()
+}
+
 func render(idx int, rec *Rec, v variant, form string) string {
+	if rec.Op == "Derive" {
+		return renderDerive(idx, rec)
+	}
 	var b strings.Builder
 	w := func(f string, a ...interface{}) { fmt.Fprintf(&b, f, a...) }
 	w("def c%d():\n    x = %s\n", idx, lit(rec.T, rec.X, rec.R))
@@ -843,6 +1026,18 @@ func parseSrc(idx int, out string) *obs {
 			exc = f[1]
 			o.Outcome = "exc:" + exc
 			// an exception after the result was printed (e.g. in the alias probe) keeps the result
+		case "vals":
+			var vs [][]int64
+			if json.Unmarshal([]byte(f[1]), &vs) == nil && len(vs) == 4 {
+				mk := func(v []int64) *value {
+					if v == nil {
+						v = []int64{}
+					}
+					return &value{Kind: "printed", Val: v}
+				}
+				o.XE, o.YE, o.ZE, o.Z2 = mk(vs[0]), mk(vs[1]), mk(vs[2]), mk(vs[3])
+				o.Post = o.XE
+			}
 		case "post", "ypost":
 			pv := value{Kind: "printed"}
 			if json.Unmarshal([]byte(f[1]), &pv.Val) != nil {
@@ -1108,7 +1303,7 @@ func main() {
 		"SetSlice/ok", "SetSlice/ValueError", "SetSlice/TypeError", "DelSlice/ok", "DelSlice/ValueError", "DelSlice/TypeError",
 		"SetItem/ok", "SetItem/IndexError", "SetItem/TypeError", "DelItem/ok", "DelItem/IndexError", "DelItem/TypeError",
 		"Concat/ok", "Concat/TypeError", "Repeat/ok", "Repeat/TypeError", "Contains/ok", "Contains/TypeError",
-		"Compare/ok", "Compare/TypeError", "Len/ok", "Iter/ok"}
+		"Compare/ok", "Compare/TypeError", "Len/ok", "Iter/ok", "Derive/ok"}
 	for _, n := range need {
 		if cnt.byOut[n] == 0 {
 			common.Inconclusive("property=C13 vacuous run: no case of class %s was generated", n)
